@@ -15,18 +15,19 @@ import (
 )
 
 type dividerProbe struct {
-	mu      sync.Mutex
-	base    priority.Divider
-	count   int
-	faultAt int
-	delta   int64
-	outside bool
-	noop    bool
-	onNil   bool
-	all     func() []uint
-	seg     map[string]struct{}
-	order   []string
-	bad     []string
+	mu       sync.Mutex
+	base     priority.Divider
+	count    int
+	faultAt  int
+	delta    int64
+	outside  bool
+	noop     bool
+	harmless bool
+	onNil    bool
+	all      func() []uint
+	seg      map[string]struct{}
+	order    []string
+	bad      []string
 }
 
 func (dp *dividerProbe) divide(priorities []uint, dividend uint, distribution map[uint]uint) map[uint]uint {
@@ -54,6 +55,10 @@ func (dp *dividerProbe) divide(priorities []uint, dividend uint, distribution ma
 	outside := dp.outside
 	dp.mu.Unlock()
 
+	before := uint(0)
+	for _, q := range distribution {
+		before += q
+	}
 	res := dp.base(priorities, dividend, distribution)
 
 	if fault {
@@ -94,6 +99,15 @@ func (dp *dividerProbe) divide(priorities []uint, dividend uint, distribution ma
 			res[p0] -= uint(-delta)
 		} else {
 			res[p0] = 0
+		}
+		after := uint(0)
+		for _, q := range res {
+			after += q
+		}
+		if after == 0 || after-before == dividend {
+			dp.mu.Lock()
+			dp.harmless = true
+			dp.mu.Unlock()
 		}
 	}
 	return res
@@ -385,6 +399,8 @@ func runPrio1Bubble(sc scenario) result {
 		faultHit = 1
 		if probe.noop {
 			faultHit = 2
+		} else if probe.harmless {
+			faultHit = 4
 		} else if probe.onNil {
 			faultHit = 3
 		}
